@@ -172,7 +172,7 @@ theorem query_chain {tr : Trace} {endT : Int} (h4 : K4 Cfg.paper tr endT = true)
       ⟨er, her, herh, heri, her1, _⟩ | ⟨o, ho, hot⟩
     · exfalso
       have := hno er her herh (by omega)
-      rw [heri, posFull_pos hpf] at this
+      rw [heri, hpf] at this
       cases this
     · exact ⟨o, ho, by omega, by omega⟩
   · exact ⟨o, ho, by omega, by omega⟩
@@ -267,10 +267,15 @@ theorem unexpired_of_refresh {tr : Trace} {endT : Int} (hwf : WFP tr endT)
     by_cases hlt : endT < t0 + effTtl Cfg.paper ttl + 0
     · exact hlt
     exfalso
-    obtain ⟨a, ha, hac, hmax⟩ := lastSome_sorted _ tr _ hwf.sorted hl
+    obtain ⟨pre, a, post, htr, hac, hpost, hmax⟩ := lastSome_sorted_split _ tr _ hwf.sorted hl
     obtain ⟨x, rfl, hxh, rfl, full, hpx⟩ := heldEv_some hac
-    have hx : x ∈ dlvs tr := mem_dlvs.mpr ha
+    have hx : x ∈ dlvs tr := mem_dlvs.mpr (by rw [htr]; simp)
     simp only at hmax
+    -- x is the last PTR(s) the host processes, in trace order
+    have hlastP : ∀ t2, x.t ≤ t2 → lastPtrIs tr b.host s t2 x = true := by
+      intro t2 ht2
+      rw [htr]
+      exact lastPtrIs_of_last hxh (by rw [hpx]; rfl) hpost ht2
     -- no PTR(s) is processed by the host after x
     have hnoP : ∀ y ∈ dlvs tr, y.h = b.host → x.t < y.t → ptrOf s y.items = none := by
       intro y hy hyh hlt'
@@ -304,14 +309,14 @@ theorem unexpired_of_refresh {tr : Trace} {endT : Int} (hwf : WFP tr endT)
     have hupb : upAt tr b.host tb = true := hwf.browse_up _ hb
     have htb : tb ≤ lastChange tr := le_lastChange (mem_browses.mp hb) rfl
     have hreg := hA.regBase
-    by_cases hcase : tb + 120 + 14000 + 10000 ≤ x.t + 750 * e
+    by_cases hcase : tb + 120 + 14000 + 10000 + 999 ≤ x.t + 750 * e
     · -- the browser had finished its start-up phase when x reached 75 % of its life
       have w1 := refreshWindow_early hcase false
       have w2 := refreshWindow_early hcase true
       simp only [Bool.false_eq_true, if_false] at w1
       simp only [if_true] at w2
-      have o1 := k3bAt_of k1 (by rw [w1]; simp only; omega) hnoP
-      have o2 := k3bAt_of k2 (by rw [w2]; simp only; omega) hnoP
+      have o1 := k3bAt_of k1 (by rw [w1]; simp only; omega) (hlastP _ (by rw [w1]; simp only; omega))
+      have o2 := k3bAt_of k2 (by rw [w2]; simp only; omega) (hlastP _ (by rw [w2]; simp only; omega))
       rw [w1] at o1
       rw [w2] at o2
       simp only at o1 o2
@@ -328,8 +333,8 @@ theorem unexpired_of_refresh {tr : Trace} {endT : Int} (hwf : WFP tr endT)
       have w2 := refreshWindow_late hcase true
       simp only [Bool.false_eq_true, if_false] at w1
       simp only [if_true] at w2
-      have o1 := k3bAt_of k1 (by rw [w1]; simp only; omega) hnoP
-      have o2 := k3bAt_of k2 (by rw [w2]; simp only; omega) hnoP
+      have o1 := k3bAt_of k1 (by rw [w1]; simp only; omega) (hlastP _ (by rw [w1]; simp only; omega))
+      have o2 := k3bAt_of k2 (by rw [w2]; simp only; omega) (hlastP _ (by rw [w2]; simp only; omega))
       rw [w1] at o1
       rw [w2] at o2
       simp only at o1 o2
